@@ -68,3 +68,28 @@ Definition changed_eqb (a b : changed_site) : bool :=
   match a, b with (f1, c1, o1), (f2, c2, o2) => String.eqb f1 f2 && String.eqb c1 c2 && String.eqb o1 o2 end.
 Definition unreviewed_changed (l : list changed_site) : list changed_site :=
   filter (fun s => negb (existsb (changed_eqb s) reviewed_changed)) l.
+
+(** Anything done to an option besides registering it and testing its presence (inventory in
+    Gen/Flags.v [flag_touch_sites]: file, function, what): a field of a pflag.Flag read or written
+    (NoOptDefVal, DefValue, Hidden, Value ...), a FlagSet method other than the registrations and
+    Changed (Lookup, Set, SetNormalizeFunc ...), a cobra Mark* / normalisation / parsing switch.
+    The registration model above knows none of them; none exists at the pinned commit. *)
+Definition reviewed_touch : list changed_site := [].
+Definition unreviewed_touch (l : list changed_site) : list changed_site :=
+  filter (fun s => negb (existsb (changed_eqb s) reviewed_touch)) l.
+
+(** pflag: the value an option takes when it is given WITHOUT a value ("--name" alone).  Registration
+    sets it to "true" for Bool options and leaves it empty for every other kind, and an option with
+    an empty NoOptDefVal consumes the next word as its value. *)
+Definition noopt_of_kind (k : string) : string :=
+  if String.eqb k "Bool" then "true" else if String.eqb k "Count" then "+1" else "".
+
+(** Parsing "--name v" / "--name=v" / "-s v" for one registered option (pflag.parseLongArg /
+    parseSingleShortArg, restricted to one option followed by one word): the value the option ends
+    with and the number of words left over as positional arguments. *)
+Inductive form := LongSpace | LongEq | ShortSpace.
+Definition parse_given (noopt : string) (f : form) (v : string) : string * nat :=
+  match f with
+  | LongEq => (v, 0)
+  | LongSpace | ShortSpace => if String.eqb noopt "" then (v, 0) else (noopt, 1)
+  end.
